@@ -621,11 +621,25 @@ class CSemantics:
         condition = self.check_condition(condition)
         return statements.DoWhile(body, condition, location)
 
-    def on_for(self, initial, condition, post, body, location):
+    def enter_for_declaration(self):
+        """Start collecting the declaration in the init clause of a for."""
+        self.compounds.append([])
+
+    def leave_for_declaration(self):
+        """Return the declaration statements of a for init clause."""
+        return self.compounds.pop()
+
+    def on_for(
+        self, initial, condition, post, body, location, init_declarations=None
+    ):
         """Check for loop construction"""
         if condition:
             condition = self.check_condition(condition)
-        return statements.For(initial, condition, post, body, location)
+        loop = statements.For(initial, condition, post, body, location)
+        if init_declarations:
+            # for (int i = 0; ...) ... is { int i = 0; for (; ...) ... }
+            loop = statements.Compound(init_declarations + [loop], location)
+        return loop
 
     def on_return(self, value, location):
         """Check return statement"""
